@@ -44,8 +44,9 @@ func (r *streamReader) Receive(stream DRPCRemote_ReceiveStream) error {
 				return err
 			}
 			target := envelope.Targets[msg.TargetIndex]
+			// a negative index means the message has no sender.
 			var sender *actor.PID
-			if len(envelope.Senders) > 0 {
+			if msg.SenderIndex >= 0 && len(envelope.Senders) > 0 {
 				sender = envelope.Senders[msg.SenderIndex]
 			}
 			r.remote.engine.SendLocal(target, payload, sender)
